@@ -128,6 +128,17 @@ def _opt_as_ref(m, st, callee, args, t):
     return some(Ref(m._sub(m._sub(args[0].loc, ("as", 1)), 0)))
 
 
+@model("core::option::Option::<T>::get_or_insert", "core::option::Option::<T>::insert")
+def _opt_get_or_insert(m, st, callee, args, t):
+    r = args[0]
+    if not isinstance(r, Ref) or r.loc[0] in ("val",):
+        return None
+    o = need_adt(m, st, r, callee["name"])
+    if o.variant == 0 or callee["name"] == "insert":
+        m.store(st, r.loc, some(args[1]))
+    return Ref(m._sub(m._sub(r.loc, ("as", 1)), 0))
+
+
 @model("core::option::Option::<T>::take")
 def _opt_take(m, st, callee, args, t):
     r = args[0]
@@ -487,6 +498,21 @@ def _str_replace(m, st, callee, args, t):
     if h is None:
         return None
     return h(m, st, _content(m, st, args[0]), args[1], args[2])
+
+
+@model("alloc::string::String::split_off")
+def _split_off(m, st, callee, args, t):
+    """s.split_off(at): s keeps [..at], the result is [at..] — the world says what the two strings are."""
+    h = getattr(m.world, "str_split_off", None)
+    if h is None or not isinstance(args[0], Ref):
+        return None
+    r, _v = _innermost_ref(m, st, args[0])
+    res = h(m, st, _content(m, st, args[0]), args[1])
+    if res is None:
+        return None
+    head, tail = res
+    m.store(st, r.loc, head)
+    return tail
 
 
 @model("alloc::string::String::replace_range")
